@@ -582,7 +582,7 @@ int main(int argc, char **argv)
     Harness h;
     h.property = "C16";
     h.worlds = {&tw, &sw, &twd, &tw32};
-    h.real = {"igris/time/timer_manager.h", "igris/container/dlist.h+dlist.cpp", "igris/event/delegate.h (header only, unused path)",
+    h.real = {"igris/time/timer_manager.h", "igris/container/dlist.h+dlist.cpp", "igris/event/delegate.h (timer_basic<spec, int, int> with a member-function delegate: every odd timer)",
               "igris/sync/syslock_mutex.cpp (single thread)", "igris/datastruct/stimer.c"};
     h.stub = {"simulated clock (now passed into exec/stimer_check)", "main loop with stalls", "client ops", "callback scripts"};
     return harness_main(h, argc, argv);
